@@ -4,25 +4,25 @@ namespace EupsModel.Remove
 open EupsModel EupsModel.Deps
 
 theorem collectLoop_cons (sb : Option SetupBy) (force : Bool) (top : Str × Str) (recursive : Bool)
-    (recur : Prod → Except Err (List Prod)) (q : Prod) (qs acc : List Prod) :
-    collectLoop sb force top recursive recur (q :: qs) acc =
+    (recur : Prod → Seen → Except Err (List Prod × Seen)) (q : Prod) (qs acc : List Prod) (seen : Seen) :
+    collectLoop sb force top recursive recur (q :: qs) acc seen =
       if inUse sb top q && !force then .error .refused
       else if recursive then
-        match recur q with
+        match recur q seen with
         | .error e => .error e
-        | .ok sub => collectLoop sb force top recursive recur qs (acc ++ sub ++ [q])
-      else collectLoop sb force top recursive recur qs (acc ++ [q]) := rfl
+        | .ok (sub, seen') => collectLoop sb force top recursive recur qs (acc ++ sub ++ [q]) seen'
+      else collectLoop sb force top recursive recur qs (acc ++ [q]) seen := rfl
 
 /-- the loop refuses only through its own in-use test or through a nested call -/
 theorem collectLoop_not_refused (sb : Option SetupBy) (force : Bool) (top : Str × Str) (recursive : Bool)
-    (recur : Prod → Except Err (List Prod))
-    (hoff : sb = none ∨ force = true) (hrec : ∀ q, recur q ≠ .error .refused) :
-    ∀ qs acc, collectLoop sb force top recursive recur qs acc ≠ .error .refused := by
+    (recur : Prod → Seen → Except Err (List Prod × Seen))
+    (hoff : sb = none ∨ force = true) (hrec : ∀ q sn, recur q sn ≠ .error .refused) :
+    ∀ qs acc seen, collectLoop sb force top recursive recur qs acc seen ≠ .error .refused := by
   intro qs
   induction qs with
-  | nil => intro acc; simp [collectLoop]
+  | nil => intro acc seen; simp [collectLoop]
   | cons q qs ih =>
-    intro acc
+    intro acc seen
     have hin : (inUse sb top q && !force) = false := by
       rcases hoff with h | h
       · subst h; simp [inUse]
@@ -30,44 +30,48 @@ theorem collectLoop_not_refused (sb : Option SetupBy) (force : Bool) (top : Str 
     rw [collectLoop_cons, hin]
     simp only [Bool.false_eq_true, if_false]
     cases recursive with
-    | false => simpa using ih _
+    | false => simpa using ih _ _
     | true =>
       simp only [if_true]
-      cases hq : recur q with
+      cases hq : recur q seen with
       | error e =>
         simp only
-        intro h; injection h with h; subst h; exact hrec q hq
-      | ok sub => simpa using ih _
+        intro h; injection h with h; subst h; exact hrec q seen hq
+      | ok r => obtain ⟨sub, sn⟩ := r; simpa using ih _ _
 
 theorem collect_not_refused (db : Db) (sb : Option SetupBy) (force : Bool) (dn : Option Str) (top : Str × Str)
     (hoff : sb = none ∨ force = true) :
-    ∀ f name ver recursive, collect db sb force dn top f name ver recursive ≠ .error .refused := by
+    ∀ f name ver recursive seen, collect db sb force dn top f name ver recursive seen ≠ .error .refused := by
   intro f
   induction f with
-  | zero => intro name ver recursive; simp [collect]
+  | zero => intro name ver recursive seen; simp [collect]
   | succ k ih =>
-    intro name ver recursive
+    intro name ver recursive seen
     unfold collect
     split
     · simp
     · split
       · simp
-      · split
+      · simp only
+        split
         · simp
-        · exact collectLoop_not_refused sb force top recursive _ hoff (fun q => ih _ _ _) _ _
+        · exact collectLoop_not_refused sb force top recursive _ hoff (fun q sn => ih _ _ _ _) _ _ _
 
 /-- every product the loop returns passed the in-use test (when the test is on and force is off) -/
 theorem collectLoop_checked (sb : SetupBy) (top : Str × Str) (recursive : Bool)
-    (recur : Prod → Except Err (List Prod))
-    (hrec : ∀ q l, recur q = .ok l → ∀ p ∈ l, inUse (some sb) top p = false) :
-    ∀ qs acc l, (∀ p ∈ acc, inUse (some sb) top p = false) →
-      collectLoop (some sb) false top recursive recur qs acc = .ok l →
+    (recur : Prod → Seen → Except Err (List Prod × Seen))
+    (hrec : ∀ q sn l sn', recur q sn = .ok (l, sn') → ∀ p ∈ l, inUse (some sb) top p = false) :
+    ∀ qs acc seen l seen', (∀ p ∈ acc, inUse (some sb) top p = false) →
+      collectLoop (some sb) false top recursive recur qs acc seen = .ok (l, seen') →
       ∀ p ∈ l, inUse (some sb) top p = false := by
   intro qs
   induction qs with
-  | nil => intro acc l hacc h; simp [collectLoop] at h; subst h; exact hacc
+  | nil =>
+    intro acc seen l seen' hacc h
+    simp only [collectLoop, Except.ok.injEq, Prod.mk.injEq] at h
+    rw [← h.1]; exact hacc
   | cons q qs ih =>
-    intro acc l hacc h
+    intro acc seen l seen' hacc h
     rw [collectLoop_cons] at h
     cases hu : inUse (some sb) top q with
     | true => simp [hu] at h
@@ -76,40 +80,43 @@ theorem collectLoop_checked (sb : SetupBy) (top : Str × Str) (recursive : Bool)
       cases recursive with
       | false =>
         simp only [Bool.false_eq_true, if_false] at h
-        apply ih _ _ _ h
+        apply ih _ _ _ _ _ h
         intro p hp; simp only [List.mem_append, List.mem_singleton] at hp
         rcases hp with hp | hp
         · exact hacc p hp
         · subst hp; exact hu
       | true =>
         simp only [if_true] at h
-        cases hq : recur q with
+        cases hq : recur q seen with
         | error e => simp [hq] at h
-        | ok sub =>
+        | ok r =>
+          obtain ⟨sub, sn⟩ := r
           simp only [hq] at h
-          apply ih _ _ _ h
+          apply ih _ _ _ _ _ h
           intro p hp; simp only [List.mem_append, List.mem_singleton] at hp
           rcases hp with (hp | hp) | hp
           · exact hacc p hp
-          · exact hrec q sub hq p hp
+          · exact hrec q seen sub sn hq p hp
           · subst hp; exact hu
 
 theorem collect_checked (db : Db) (sb : SetupBy) (dn : Option Str) (top : Str × Str) :
-    ∀ f name ver recursive l, collect db (some sb) false dn top f name ver recursive = .ok l →
+    ∀ f name ver recursive seen l seen', collect db (some sb) false dn top f name ver recursive seen = .ok (l, seen') →
       ∀ p ∈ l, inUse (some sb) top p = false := by
   intro f
   induction f with
-  | zero => intro name ver recursive l h; simp [collect] at h
+  | zero => intro name ver recursive seen l seen' h; simp [collect] at h
   | succ k ih =>
-    intro name ver recursive l h
+    intro name ver recursive seen l seen' h
     unfold collect at h
     split at h
-    · simp at h; subst h; simp
+    · simp only [Except.ok.injEq, Prod.mk.injEq] at h; rw [← h.1]; simp
     · split at h
       · simp at h
-      · split at h
+      · simp only at h
+        split at h
         · simp at h
-        · exact collectLoop_checked sb top recursive _ (fun q l' hq => ih _ _ _ l' hq) _ [] l (by simp) h
+        · exact collectLoop_checked sb top recursive _ (fun q sn l' sn' hq => ih _ _ _ _ l' sn' hq) _ [] _ l seen'
+            (by simp) h
 
 theorem mem_uniqProds (l : List Prod) (p : Prod) : p ∈ uniqProds l ↔ p ∈ l := by
   unfold uniqProds
@@ -121,23 +128,202 @@ theorem mem_uniqProds (l : List Prod) (p : Prod) : p ∈ uniqProds l ↔ p ∈ l
 
 /-- a non-recursive `_remove` collects the product and nothing else -/
 theorem collect_nonrecursive (db : Db) (sb : Option SetupBy) (force : Bool) (dn : Option Str) (top : Str × Str)
-    (f : Nat) (name : Str) (ver : Option Str) (l : List Prod)
-    (h : collect db sb force dn top f name ver false = .ok l) :
+    (f : Nat) (name : Str) (ver : Option Str) (seen : Seen) (l : List Prod) (seen' : Seen)
+    (h : collect db sb force dn top f name ver false seen = .ok (l, seen')) :
     l = [] ∧ dn = some name ∨ ∃ p, db.find name ver = some p ∧ l = [p] := by
   cases f with
   | zero => simp [collect] at h
   | succ k =>
     unfold collect at h
     split at h
-    · rename_i hd; simp at h; left; exact ⟨h, by simpa using hd⟩
+    · rename_i hd
+      simp only [Except.ok.injEq, Prod.mk.injEq] at h
+      left; exact ⟨h.1.symm, by simpa using hd⟩
     · split at h
       · simp at h
       · rename_i p hp
-        simp only [directDeps, Bool.false_eq_true, if_false] at h
+        simp only [Bool.false_and, directDeps, Bool.false_eq_true, if_false] at h
         right; refine ⟨p, hp, ?_⟩
         rw [collectLoop_cons] at h
         split at h
         · simp at h
-        · simp [collectLoop] at h; exact h.symm
+        · simp only [Bool.false_eq_true, if_false, collectLoop, List.nil_append, Except.ok.injEq,
+            Prod.mk.injEq] at h
+          exact h.1.symm
+
+/-- every product the loop was given ends up in its result -/
+theorem collectLoop_contains (sb : Option SetupBy) (force : Bool) (top : Str × Str) (recursive : Bool)
+    (recur : Prod → Seen → Except Err (List Prod × Seen)) :
+    ∀ qs acc seen l seen', collectLoop sb force top recursive recur qs acc seen = .ok (l, seen') →
+      (∀ p ∈ acc, p ∈ l) ∧ ∀ q ∈ qs, q ∈ l := by
+  intro qs
+  induction qs with
+  | nil =>
+    intro acc seen l seen' h
+    simp only [collectLoop, Except.ok.injEq, Prod.mk.injEq] at h
+    rw [← h.1]; exact ⟨fun _ h => h, by simp⟩
+  | cons q qs ih =>
+    intro acc seen l seen' h
+    rw [collectLoop_cons] at h
+    split at h
+    · simp at h
+    · split at h
+      · cases hq : recur q seen with
+        | error e => simp [hq] at h
+        | ok r =>
+          obtain ⟨sub, sn⟩ := r
+          simp only [hq] at h
+          obtain ⟨h1, h2⟩ := ih _ _ _ _ h
+          refine ⟨fun p hp => h1 p (by simp [hp]), ?_⟩
+          intro x hx
+          simp only [List.mem_cons] at hx
+          rcases hx with rfl | hx
+          · exact h1 _ (by simp)
+          · exact h2 x hx
+      · obtain ⟨h1, h2⟩ := ih _ _ _ _ h
+        refine ⟨fun p hp => h1 p (by simp [hp]), ?_⟩
+        intro x hx
+        simp only [List.mem_cons] at hx
+        rcases hx with rfl | hx
+        · exact h1 _ (by simp)
+        · exact h2 x hx
+
+theorem mem_directDeps_self {db : Db} {p : Prod} {expand : Bool} {deps : List Prod}
+    (h : directDeps db p expand = some deps) : p ∈ deps := by
+  unfold directDeps at h
+  split at h
+  · cases hx : depsOf db db.fuel [] p false 0 St.empty with
+    | none => simp [hx] at h
+    | some r => simp [hx] at h; rw [← h]; simp
+  · simp at h; rw [← h]; simp
+
+/-- a successful `_remove` of a product other than the default product collects that product -/
+theorem collect_contains_self (db : Db) (sb : Option SetupBy) (force : Bool) (dn : Option Str) (top : Str × Str)
+    (f : Nat) (name : Str) (ver : Option Str) (recursive : Bool) (seen : Seen) (l : List Prod) (seen' : Seen)
+    (h : collect db sb force dn top f name ver recursive seen = .ok (l, seen')) (hd : dn ≠ some name) :
+    ∃ p, db.find name ver = some p ∧ p ∈ l := by
+  cases f with
+  | zero => simp [collect] at h
+  | succ k =>
+    unfold collect at h
+    split at h
+    · rename_i hdn; exact absurd (by simpa using hdn) hd
+    · split at h
+      · simp at h
+      · rename_i p hp
+        simp only at h
+        split at h
+        · simp at h
+        · rename_i deps hdeps
+          exact ⟨p, hp, (collectLoop_contains _ _ _ _ _ _ _ _ _ _ h).2 p (mem_directDeps_self hdeps)⟩
+
+/-- the shape of a successful run -/
+theorem removeWith_ok {s : State} {uses : UsesOutcome} {name ver : Str} {recursive check force : Bool}
+    {dn : Option Str} {s' : State} {R : List Prod}
+    (h : removeWith s uses name ver recursive check force dn = (Outcome.ok, s', R)) :
+    ∃ sb l sn, collect s.db sb force dn (name, ver) s.removeFuel name (some ver) recursive [] = .ok (l, sn) ∧
+      s' = destroy s (uniqProds l) ∧ R = uniqProds l ∧
+      (check = false → sb = none) ∧ (check = true → ∃ sb', uses = .ok sb' ∧ sb = some sb') := by
+  have key : ∀ sb, (match collect s.db sb force dn (name, ver) s.removeFuel name (some ver) recursive [] with
+      | .error e => (Outcome.failed e, s, ([] : List Prod))
+      | .ok (l, _) => (Outcome.ok, destroy s (uniqProds l), uniqProds l)) = (Outcome.ok, s', R) →
+      ∃ l sn, collect s.db sb force dn (name, ver) s.removeFuel name (some ver) recursive [] = .ok (l, sn) ∧
+        s' = destroy s (uniqProds l) ∧ R = uniqProds l := by
+    intro sb hk
+    cases hc : collect s.db sb force dn (name, ver) s.removeFuel name (some ver) recursive [] with
+    | error e => simp [hc] at hk
+    | ok r =>
+      obtain ⟨l, sn⟩ := r
+      simp only [hc, Prod.mk.injEq, true_and] at hk
+      exact ⟨l, sn, rfl, hk.1.symm, hk.2.symm⟩
+  unfold removeWith at h
+  cases check with
+  | false =>
+    simp only [Bool.false_eq_true, if_false] at h
+    obtain ⟨l, sn, h1, h2, h3⟩ := key _ h
+    exact ⟨none, l, sn, h1, h2, h3, fun _ => rfl, fun hc => absurd hc (by simp)⟩
+  | true =>
+    simp only [if_true] at h
+    split at h
+    · simp at h
+    · simp at h
+    · rename_i sb'
+      obtain ⟨l, sn, h1, h2, h3⟩ := key _ h
+      exact ⟨some sb', l, sn, h1, h2, h3, fun hc => absurd hc (by simp), fun _ => ⟨sb', rfl, rfl⟩⟩
+
+/-- every run is a failure that changes nothing, or a success -/
+theorem removeWith_failed_or_ok (s : State) (uses : UsesOutcome) (name ver : Str) (recursive check force : Bool)
+    (dn : Option Str) :
+    (∃ e, removeWith s uses name ver recursive check force dn = (Outcome.failed e, s, [])) ∨
+      ∃ s' R, removeWith s uses name ver recursive check force dn = (Outcome.ok, s', R) := by
+  have key : ∀ sb, (∃ e, (match collect s.db sb force dn (name, ver) s.removeFuel name (some ver) recursive [] with
+      | .error e => (Outcome.failed e, s, ([] : List Prod))
+      | .ok (l, _) => (Outcome.ok, destroy s (uniqProds l), uniqProds l)) = (Outcome.failed e, s, [])) ∨
+      ∃ s' R, (match collect s.db sb force dn (name, ver) s.removeFuel name (some ver) recursive [] with
+      | .error e => (Outcome.failed e, s, ([] : List Prod))
+      | .ok (l, _) => (Outcome.ok, destroy s (uniqProds l), uniqProds l)) = (Outcome.ok, s', R) := by
+    intro sb
+    cases hc : collect s.db sb force dn (name, ver) s.removeFuel name (some ver) recursive [] with
+    | error e => exact Or.inl ⟨e, rfl⟩
+    | ok r => exact Or.inr ⟨_, _, rfl⟩
+  unfold removeWith
+  cases check with
+  | false => simp only [Bool.false_eq_true, if_false]; exact key _
+  | true =>
+    simp only [if_true]
+    split
+    · exact Or.inl ⟨_, rfl⟩
+    · exact Or.inl ⟨_, rfl⟩
+    · exact key _
+
+/-- a refusal comes out of `collect` -/
+theorem removeWith_refused {s : State} {uses : UsesOutcome} {name ver : Str} {recursive check force : Bool}
+    {dn : Option Str} (h : (removeWith s uses name ver recursive check force dn).1 = Outcome.failed Err.refused) :
+    ∃ sb, collect s.db sb force dn (name, ver) s.removeFuel name (some ver) recursive [] = .error .refused ∧
+      (check = false → sb = none) := by
+  have key : ∀ sb, (match collect s.db sb force dn (name, ver) s.removeFuel name (some ver) recursive [] with
+      | .error e => (Outcome.failed e, s, ([] : List Prod))
+      | .ok (l, _) => (Outcome.ok, destroy s (uniqProds l), uniqProds l)).1 = Outcome.failed Err.refused →
+      collect s.db sb force dn (name, ver) s.removeFuel name (some ver) recursive [] = .error .refused := by
+    intro sb hk
+    cases hc : collect s.db sb force dn (name, ver) s.removeFuel name (some ver) recursive [] with
+    | error e => simp only [hc] at hk; injection hk with hk; rw [hk]
+    | ok r => simp [hc] at hk
+  unfold removeWith at h
+  cases check with
+  | false =>
+    simp only [Bool.false_eq_true, if_false] at h
+    exact ⟨none, key _ h, fun _ => rfl⟩
+  | true =>
+    simp only [if_true] at h
+    split at h
+    · simp at h
+    · simp at h
+    · exact ⟨_, key _ h, fun hc => absurd hc (by simp)⟩
+
+/-- where a failure comes from: the in-use index could not be built, or `collect` failed -/
+theorem removeWith_failed {s : State} {uses : UsesOutcome} {name ver : Str} {recursive check force : Bool}
+    {dn : Option Str} {e : Err} (h : (removeWith s uses name ver recursive check force dn).1 = Outcome.failed e) :
+    (check = true ∧ ((uses = .outOfFuel ∧ e = .outOfFuel) ∨ (uses = .cycle ∧ e = .cycle))) ∨
+      ∃ sb, collect s.db sb force dn (name, ver) s.removeFuel name (some ver) recursive [] = .error e := by
+  have key : ∀ sb, (match collect s.db sb force dn (name, ver) s.removeFuel name (some ver) recursive [] with
+      | .error e => (Outcome.failed e, s, ([] : List Prod))
+      | .ok (l, _) => (Outcome.ok, destroy s (uniqProds l), uniqProds l)).1 = Outcome.failed e →
+      collect s.db sb force dn (name, ver) s.removeFuel name (some ver) recursive [] = .error e := by
+    intro sb hk
+    cases hc : collect s.db sb force dn (name, ver) s.removeFuel name (some ver) recursive [] with
+    | error e' => simp only [hc] at hk; injection hk with hk; rw [hk]
+    | ok r => simp [hc] at hk
+  unfold removeWith at h
+  cases check with
+  | false =>
+    simp only [Bool.false_eq_true, if_false] at h
+    exact Or.inr ⟨none, key _ h⟩
+  | true =>
+    simp only [if_true] at h
+    split at h
+    · simp only at h; injection h with h; exact Or.inl ⟨rfl, Or.inl ⟨rfl, h.symm⟩⟩
+    · simp only at h; injection h with h; exact Or.inl ⟨rfl, Or.inr ⟨rfl, h.symm⟩⟩
+    · exact Or.inr ⟨_, key _ h⟩
 
 end EupsModel.Remove
